@@ -283,6 +283,8 @@ def _memory_layout(ctx):
             ctx.ob("C23.R7", site, "the literal's label resolves to that address", bool(lab) and bool(addr) and norm(lab[0].value) == norm(addr[0].targets[0]), construct="literal-label")
     frame_slots(ctx, "C23.R8")
     _binop_lowering(ctx)
+    _shape_stack(ctx)
+    _no_silent_edge_drop(ctx)
 
 
 def _paths(stmts, state, fresh):
@@ -444,3 +446,59 @@ def _binop_lowering(ctx):
             if o2 != o and (o, o2) not in SOUND_REWRITES:
                 bad.append("%s -> %s" % (o, o2))
     ctx.ob("C23.R9", site, "every opcode rewrite in the binop branch is in the table of equivalences (%d special case(s) found)" % seen, not bad, construct="rewrites-sound", detail="; ".join(bad[:4]))
+
+
+def _shape_stack(ctx):
+    """R10: the comparison of a conditional jump leaves an i32 on the wasm operand stack, which the `if` of an IfShape
+    consumes.  `cjmp c ? S : S` (the optimizer produces it from `if (b) { }`) has ONE successor, so the structurer
+    returns a BasicShape for that block: nothing consumes the i32, and the function body is ill-typed (ppci's own
+    stack assertion fires).  The BasicShape branch has to discard it."""
+    ctx.rule("C23.R10", "IR -> wasm, operand stack: an IfShape consumes the comparison its block leaves on the stack; a BasicShape whose block ends in a conditional jump (both targets the same block) drops it; every shape starts and ends with an empty stack", floor=3)
+    fn = ctx.fn(F, "IrToWasmCompiler.do_shape")
+    site = F + ":IrToWasmCompiler.do_shape"
+    from ..tables import isinstance_branches
+    br = {}
+    node = fn.body[-1] if isinstance(fn.body[-1], ast.If) else next((n for n in fn.body if isinstance(n, ast.If)), None)
+    while isinstance(node, ast.If):
+        t = " ".join(norm(node.test).split())
+        br[t] = node.body
+        node = node.orelse[0] if len(node.orelse) == 1 and isinstance(node.orelse[0], ast.If) else None
+    basic = br.get("isinstance(shape, relooper.BasicShape)")
+    ifs = br.get("isinstance(shape, relooper.IfShape)")
+    ctx.need(basic is not None and ifs is not None, "do_shape: BasicShape / IfShape branches not found")
+    drops = [n for st in basic for n in ast.walk(st) if isinstance(n, ast.If) and " ".join(norm(n.test).split()).startswith("isinstance(") and "ir.CJump" in norm(n.test) and "last_instruction" in norm(n.test)]
+    ok = len(drops) == 1 and any(isinstance(c, ast.Call) and norm(c.func) == "self.emit" and try_const(c.args[0]) == "drop" for c in ast.walk(drops[0])) \
+        and any(isinstance(a, ast.AugAssign) and norm(a.target) == "self.stack" and isinstance(a.op, ast.Sub) for a in ast.walk(drops[0]))
+    ctx.ob("C23.R10", site, "BasicShape: after the block's trees, a conditional-jump terminator's comparison result is dropped (and the stack counter decremented)", ok, construct="basic-shape-drops-condition")
+    cons = [n for st in ifs for n in ast.walk(st) if isinstance(n, ast.AugAssign) and norm(n.target) == "self.stack" and isinstance(n.op, ast.Sub)]
+    em = [c for st in ifs for c in ast.walk(st) if isinstance(c, ast.Call) and norm(c.func) == "self.emit" and c.args and try_const(c.args[0]) == "if"]
+    ctx.ob("C23.R10", site, "IfShape: the `if` instruction consumes exactly the one value the block left", len(cons) == 1 and len(em) == 1 and cons[0].lineno < em[0].lineno, construct="if-consumes-condition")
+    asserts = [n for n in ast.walk(fn) if isinstance(n, ast.Assert) and "self.stack == 0" in norm(n.test)]
+    ctx.ob("C23.R10", site, "loops, breaks and continues are only emitted with an empty operand stack (asserted)", len(asserts) >= 4, construct="empty-stack-asserted", detail="%d assertions" % len(asserts))
+
+
+def _no_silent_edge_drop(ctx):
+    """R11: the structurer realises every CFG edge as code, `continue`, `break` or as the fall-through to the follow-up
+    of the if it is shaping.  StructureDetector.test decides this for edges to nodes that were structured already
+    (marked).  An edge to a marked node that is none of these three cannot be expressed; it has to be refused -
+    returning None ("nothing to emit") makes the branch fall out of the enclosing construct."""
+    RL = "ppci/graph/relooper.py"
+    ctx.rule("C23.R11", "relooper: an edge to an already structured node is a continue (loop header), a break (loop follow-up) or the fall-through to the pending if follow-up; any other such edge is refused with an error, never dropped silently", floor=3)
+    fn = ctx.fn(RL, "StructureDetector.test")
+    site = RL + ":StructureDetector.test"
+    br = [n for n in fn.body if isinstance(n, ast.If) and " ".join(norm(n.test).split()) == "%s in self.marked" % fn.args.args[1].arg]
+    ctx.need(len(br) == 1, "StructureDetector.test: marked branch not found")
+    rets = [r for st in br[0].body for r in ast.walk(st) if isinstance(r, ast.Return)]
+    kinds = [norm(r.value) if r.value is not None else "None" for r in rets]
+    ctx.ob("C23.R11", site, "an edge to the header of the loop being shaped is a continue", any(k.startswith("ContinueShape(") for k in kinds), construct="continue")
+    ctx.ob("C23.R11", site, "an edge to the follow-up of the loop being shaped is a break", any(k.startswith("BreakShape(") for k in kinds), construct="break")
+    from ..sym import conjuncts
+    none_rets = [r for r in rets if r.value is None or norm(r.value) == "None"]
+    guarded = True
+    for r in none_rets:
+        conds = [" ".join(norm(c).split()) for c, pol in conjuncts(r, fn, {})]
+        if not any("follow" in c and "loop_stack" not in c for c in conds):
+            guarded = False
+    raises = [x for st in br[0].body for x in ast.walk(st) if isinstance(x, ast.Raise)]
+    ctx.ob("C23.R11", site, "`nothing to emit` is returned only for the pending follow-up of an if; any other marked target raises (an inner loop header reached from a second branch, a join that is not the post-dominator ...)", bool(none_rets) and guarded and bool(raises),
+           construct="no-silent-drop", node=none_rets[0] if none_rets else br[0], detail="None returned %s; raises in the branch: %d" % ("only under a follow-up test" if guarded else "without testing that the node is the pending follow-up", len(raises)))
